@@ -55,6 +55,21 @@ CLAIMS["C12"] = (
     "in a fresh interpreter is not decided.",
     "state inventory from ADT definitions + must-write-on-all-paths effect analysis")
 
+CLAIMS["C05"] = (
+    "decides the writer/reader half of the listing fixed point: the lister's tables (Display of "
+    "Word, Operator, Literal, Token, Line) and the scanner's tables (keyword table incl. order, "
+    "single-character table, operator merger, dispatch characters) are extracted from MIR by "
+    "resolved variant and must agree row by row; word separation agrees with alphabetic spellings; "
+    "SAVE/LOAD use Display and load_str. Idempotence of number scanning and byte-for-byte text "
+    "preservation are not decided.",
+    "sibling table extraction and agreement (lexer vs lister) on MIR")
+CLAIMS["C16"] = (
+    "decides the structural half: case closure of every raw-input letter comparison including "
+    "its guard context, equality of the blank-separated and adjacent operator-merging relations "
+    "(with the documented spellings present), GO TO / GO SUB rows, aliases and optional LET "
+    "building the same AST node. That all spellings run identically is not decided.",
+    "comparison-constant closure with path-condition contexts + sibling relation agreement")
+
 NOT_APPLICABLE = {}
 
 
